@@ -201,9 +201,26 @@ def wellformed(q) -> bool:
     return True
 
 
+def shared_selector_family():
+    """A selector that reaches several literal projections through one lambda parameter (the substituted argument node is shared
+    by every use in the implementation): each projection must be decided on its own, for boundary indices of both signs."""
+    out = []
+    lits = ["(ds, 2, 3)", "[4, ds, 6]", "(7,)", "(ds, 9)"]
+    for idx in ("-1", "-2", "-3", "0", "1", "2", "-4", "3"):
+        for a in lits:
+            for b in lits:
+                out.append("(lambda i: (%s[i], %s[i]))(%s)" % (a, b, idx))
+        out.append("Select(ds, lambda e: (lambda last: (e.a, e.b, e.met)[last] - (e.met, e.b, e.a)[last])(%s))" % idx)
+        out.append("(lambda i: (lambda j: ((1, 2, 3)[i], (4, 5, 6)[j], (7, 8, 9)[i]))(i))(%s)" % idx)
+        out.append("(lambda i: {'k': (1, 2)[i], 'c': [(3, 4)[i], (5, 6)[i]]})(%s)" % idx)
+    return out
+
+
 def run(ctx):
     datasets = sc.make_datasets(random.Random(20260927))
     qs = []
+    for s in shared_selector_family():
+        qs.append(sc.parse(s))
     for s in ODD + c02.CORPUS:
         try:
             qs.append(sc.parse(s))
